@@ -273,7 +273,25 @@ func extraC02Reader(c *Ctx, r *Report) {
 						if !ok {
 							continue
 						}
-						for _, ref2 := range *ex.Referrers() {
+						// the extracted value itself, or a phi it flows into (result/err assigned in several branches)
+						var uses []ssa.Instruction
+						seenV := map[ssa.Value]bool{}
+						var collect func(v ssa.Value)
+						collect = func(v ssa.Value) {
+							if seenV[v] || v.Referrers() == nil {
+								return
+							}
+							seenV[v] = true
+							for _, u := range *v.Referrers() {
+								if ph, isPhi := u.(*ssa.Phi); isPhi {
+									collect(ph)
+									continue
+								}
+								uses = append(uses, u)
+							}
+						}
+						collect(ex)
+						for _, ref2 := range uses {
 							bo, ok := ref2.(*ssa.BinOp)
 							if !ok || !isNilConst(bo.Y) || (bo.Op != token.EQL && bo.Op != token.NEQ) {
 								continue
